@@ -242,7 +242,7 @@ theorem C16_sort_by_row_ordered (v : VW) (buf : List α) (h : v.Inv buf.length) 
   rw [← hkey j hj] at hy
   exact hstab i j hij (by omega) x y hx hy hyx
 
-/-- the same for the key-function variant: the chosen row ends up ordered by the keys -/
+/-- the same for the key-function variant: the chosen row ends up ordered by the keys, columns with equal keys keep their order -/
 theorem C16_sort_by_row_key_ordered {κ : Type} (v : VW) (buf : List α) (h : v.Inv buf.length) (a : Acc) (ha : a.Of v buf.length)
     (indexRow : Nat → Res Win) (hidx : ∀ r, r < v.numRows → indexRow r = .ok (v.rowWin r))
     (lim : Nat) (hlim : v.numCols ≤ lim) (key : α → κ) (leK : κ → κ → Bool)
@@ -250,10 +250,24 @@ theorem C16_sort_by_row_key_ordered {κ : Type} (v : VW) (buf : List α) (h : v.
     (row : Nat) (hr : row < v.numRows) :
     ∃ p buf', a.sortByRowKey indexRow buf lim key leK row = .ok buf' ∧ p.Perm (List.range v.numCols) ∧
       buf' = gather buf (v.mapCells (sortColsG p)) ∧
-      (readWin buf' (v.rowWin row)).Pairwise (fun x y => leK (key x) (key y) = true) := by
-  obtain ⟨p, buf', e, hp, hb, hs, _⟩ := C16_sort_by_row_ordered v buf h a ha indexRow hidx lim hlim
+      (readWin buf' (v.rowWin row)).Pairwise (fun x y => leK (key x) (key y) = true) ∧
+      (∀ i j, i < j → j < v.numCols → ∀ x y, buf[v.pos (p.getD i 0) row]? = some x → buf[v.pos (p.getD j 0) row]? = some y →
+        leK (key y) (key x) = true → p.getD i 0 < p.getD j 0) := by
+  exact C16_sort_by_row_ordered v buf h a ha indexRow hidx lim hlim
     (fun x y => leK (key x) (key y)) (fun a b c => htrans (key a) (key b) (key c)) (fun a b => htotal (key a) (key b)) row hr
-  exact ⟨p, buf', e, hp, hb, hs⟩
+
+/-- … and for the natural-order variant `sort_row_ord` (`leOrd` = `T: Ord`): ordered, ties keep their order -/
+theorem C16_sort_row_ord_ordered (v : VW) (buf : List α) (h : v.Inv buf.length) (a : Acc) (ha : a.Of v buf.length)
+    (indexRow : Nat → Res Win) (hidx : ∀ r, r < v.numRows → indexRow r = .ok (v.rowWin r))
+    (lim : Nat) (hlim : v.numCols ≤ lim) (leOrd : α → α → Bool)
+    (htrans : ∀ a b c, leOrd a b → leOrd b c → leOrd a c) (htotal : ∀ a b, leOrd a b ∨ leOrd b a)
+    (row : Nat) (hr : row < v.numRows) :
+    ∃ p buf', a.sortRowOrd indexRow buf lim leOrd row = .ok buf' ∧ p.Perm (List.range v.numCols) ∧
+      buf' = gather buf (v.mapCells (sortColsG p)) ∧
+      (readWin buf' (v.rowWin row)).Pairwise (fun x y => leOrd x y = true) ∧
+      (∀ i j, i < j → j < v.numCols → ∀ x y, buf[v.pos (p.getD i 0) row]? = some x → buf[v.pos (p.getD j 0) row]? = some y →
+        leOrd y x = true → p.getD i 0 < p.getD j 0) :=
+  C16_sort_by_row_ordered v buf h a ha indexRow hidx lim hlim leOrd htrans htotal row hr
 
 /-- non-vacuity: a 3x2 owned array sorted by its row 0 (keys 30,10,20): columns move as wholes -/
 example : (⟨[30, 10, 20, 1, 2, 3], 2, 3⟩ : TD Nat).acc.sortByRow
